@@ -2,7 +2,7 @@
 import ast
 
 from ..model import dotted, src, calls_in, kw, AnalysisError
-from ..common import fpaths, peel, actual, const_str, same_expr
+from ..common import fpaths, peel, actual, const_str, same_expr, isinstance_state, str_state, truth_on_path
 from .. import anchors as A
 
 ARITH = {"__add__": ("add", False), "__sub__": ("sub", False), "__rsub__": ("sub", True), "__mul__": ("mul", False),
@@ -42,9 +42,11 @@ def operator_siblings(ck, rule, only=None):
                 ck.bad(rule, m, "%s computes with functions.%s" % (name, fn), "%s returns %s" % (name, src(pf.ret_stmt.value)[:70]), pf.ret_stmt,
                        "the operator is wired to another operation")
                 continue
-            isfxp = [g for g in pf.guards if g[2] is not None and isinstance(g[2], ast.UnaryOp) and isinstance(g[2].operand, ast.Call)
-                     and dotted(g[2].operand.func) == "isinstance" and dotted(g[2].operand.args[0]) == op]
-            const_branch = bool(isfxp and isfxp[-1][1])
+            st_fx = isinstance_state(pf.guards, op)
+            if st_fx is None:
+                ck.bad(rule, m, "%s distinguishes a fixed-point operand from a constant" % name, "path without isinstance(%s, Fxp) test" % op, m.node)
+                continue
+            const_branch = (st_fx is False)
             a0, a1 = (r.args + [None, None])[:2]
             want_self, want_x = (1, 0) if reflected else (0, 1)
             args = [a0, a1]
@@ -113,17 +115,13 @@ def const_conversion(ck, rule):
     for pf in pfs:
         if pf.end == "raise":
             continue
-        key = None
-        for g in pf.guards:
-            t = g[2]
-            if g[1] and isinstance(t, ast.Compare) and len(t.ops) == 1 and isinstance(t.ops[0], ast.Eq) and dotted(t.left) == "op_input_size" and const_str(t.comparators[0]) is not None:
-                key = const_str(t.comparators[0])
-            if g[1] and isinstance(t, ast.Compare) and isinstance(t.ops[0], ast.Is) and dotted(t.left) == "op_input_size":
-                key = key or "<unset>"
-        isfxp = [g for g in pf.guards if g[2] is not None and isinstance(g[2], ast.UnaryOp) and isinstance(g[2].operand, ast.Call) and dotted(g[2].operand.func) == "isinstance"]
-        if isfxp and not isfxp[-1][1]:
+        eq, ne = str_state([(g[2] if g[2] is not None else g[0], g[1]) for g in pf.guards], "op_input_size")
+        keys = sorted(eq, key=lambda v: str(v)) if eq else []
+        st_fx = isinstance_state(pf.guards, xp)
+        if st_fx is True:
             ck.check(pf.ret is not None and dotted(pf.ret) == xp, rule, cc, "an Fxp operand is passed through unchanged", "returns %s" % (src(pf.ret) if pf.ret is not None else None), pf.ret_stmt, nontrivial=False)
             continue
+        key = keys[0] if keys else None
         if key is None or pf.ret is None:
             continue
         r = peel(pf.ret)[0]
@@ -133,15 +131,16 @@ def const_conversion(ck, rule):
             continue
         pos_ok = len(r.args) == 1 and dotted(r.args[0]) == xp
         kws = {k.arg: k.value for k in r.keywords}
-        if key == "same":
-            good = pos_ok and set(kws) == {"like"} and dotted(kws["like"]) == "self"
-            ck.check(good, rule, cc, "op_input_size='same': the constant is converted into the operand's own format, Fxp(x, like=self)", "'same' -> %s" % src(r)[:70], pf.ret_stmt,
+        if "same" in keys:
+            good = pos_ok and set(kws) == {"like"} and dotted(kws["like"]) == "self" and keys == ["same"]
+            ck.check(good, rule, cc, "op_input_size='same': the constant is converted into the operand's own format, Fxp(x, like=self)", "%s -> %s" % (keys, src(r)[:70]), pf.ret_stmt,
                      "the constant is quantized into another format than the documented one")
         else:
             good = pos_ok and not kws
-            ck.check(good, rule, cc, "op_input_size=%s: the constant gets its best (inferred) format, Fxp(x)" % key, "%s -> %s" % (key, src(r)[:70]), pf.ret_stmt,
+            ck.check(good, rule, cc, "op_input_size=%s: the constant gets its best (inferred) format, Fxp(x)" % keys, "%s -> %s" % (keys, src(r)[:70]), pf.ret_stmt,
                      "extra arguments constrain the inferred format (e.g. forcing the operand's signedness saturates negative constants)")
-        handled[key] = True
+        for k_ in keys:
+            handled[k_ if k_ is not None else "<unset>"] = True
     for k_ in allowed:
         ck.check(k_ in handled, rule, cc, "configured op_input_size %r has a branch in the converter" % k_, "%r not handled" % k_)
     ck.check(any(pf.end == "raise" for pf in pfs), rule, cc, "an unknown op_input_size raises", "no raising branch")
@@ -446,6 +445,12 @@ def shift_rules(ck, rule_type, rule_growth, rule_pure):
                 ck.bad(rule_type, m, "%s returns the shifted object" % name, "path without return value", m.node)
                 continue
             mode = [g for g in pf.guards if g[2] is not None and isinstance(g[2], ast.Compare) and dotted(g[2].left) in ("self.config.shifting", "self.shifting")]
+            rawg = [(g[2] if g[2] is not None else g[0], g[1]) for g in pf.guards]
+            eq_m, ne_m = str_state(rawg, "self.config.shifting")
+            eq2, ne2 = str_state(rawg, "self.shifting")
+            eq_m = eq_m if eq_m is not None else eq2
+            ne_m = ne_m | ne2
+            is_expand = True if eq_m == {"expand"} else (False if ("expand" in ne_m or (eq_m is not None and "expand" not in eq_m)) else None)
             # ---- operand untouched
             for st in pf.stores:
                 if st.path.startswith("self.") or (st.path == "self"):
@@ -524,7 +529,7 @@ def shift_rules(ck, rule_type, rule_growth, rule_pure):
             expanding = not fresh_copy and (nw != sw or nf != sf)
             is_expand_guard = [g for g in mode if const_str(g[2].comparators[0]) == "expand"]
             if expanding:
-                okm = bool(is_expand_guard and is_expand_guard[-1][1] and isinstance(is_expand_guard[-1][2].ops[0], ast.Eq))
+                okm = is_expand is True
                 if not okm:
                     ck.bad(rule_growth, m, "the format grows only in 'expand' mode", "format grows under %s" % [(src(g[2]), g[1]) for g in mode], node,
                            "in trunc/keep mode the format must stay unchanged (one of the three modes takes the wrong branch)")
@@ -547,13 +552,13 @@ def shift_rules(ck, rule_type, rule_growth, rule_pure):
             else:
                 if not mode:
                     okm = True
-                elif not is_expand_guard:
+                elif is_expand is None:
                     okm = False
-                elif not is_expand_guard[-1][1]:
-                    okm = isinstance(is_expand_guard[-1][2].ops[0], ast.Eq)
+                elif is_expand is False:
+                    okm = True
                 else:
                     # under == 'expand' nothing grows on this path: fine for >> when the expansion amount is 0; << always sizes the word
-                    okm = sign < 0 or nw != sw or True if sign < 0 else (F_nword is not None and dotted(F_nword) != "self.n_word")
+                    okm = True if sign < 0 else (F_nword is not None and dotted(F_nword) != "self.n_word")
                 if not okm:
                     ck.bad(rule_growth, m, "trunc/keep modes are selected as 'not expand'", "format kept under %s" % [(src(g[2]), g[1]) for g in mode], node,
                            "a mode other than 'expand' is routed to the expanding branch or vice versa")
